@@ -184,6 +184,7 @@ var badPieces = []string{`\uD83D`, `\uDE00`, `\uD83Dx`, `\uD83D\u0041`, `\q`, `\
 func genQuoted(r *common.Rand, allowBad bool) string {
 	var sb strings.Builder
 	n := r.Pick(6)
+	quirky := r.Chance(1, 5) // most strings stay inside what the implementation handles faithfully
 	for i := 0; i < n; i++ {
 		switch k := r.Pick(20); {
 		case k < 8:
@@ -195,16 +196,23 @@ func genQuoted(r *common.Rand, allowBad bool) string {
 		case k < 16:
 			sb.WriteString(common.PickOf(r, pairPieces))
 		case k < 17:
-			sb.WriteString(common.PickOf(r, bracePieces))
-		case k < 18:
-			sb.WriteString(common.PickOf(r, rawCtl))
-		case k < 19:
 			sb.WriteString(fmt.Sprintf(`\u%04x`, r.Pick(0xD800)))
 		default:
-			if allowBad {
-				sb.WriteString(common.PickOf(r, badPieces))
-			} else {
+			if !quirky {
 				sb.WriteString(common.PickOf(r, plainPieces))
+				continue
+			}
+			switch r.Pick(3) {
+			case 0:
+				sb.WriteString(common.PickOf(r, bracePieces))
+			case 1:
+				sb.WriteString(common.PickOf(r, rawCtl))
+			default:
+				if allowBad {
+					sb.WriteString(common.PickOf(r, badPieces))
+				} else {
+					sb.WriteString(common.PickOf(r, rawCtl))
+				}
 			}
 		}
 	}
@@ -213,15 +221,20 @@ func genQuoted(r *common.Rand, allowBad bool) string {
 
 var indents = []string{"", " ", "  ", "    ", "\t", "\t\t", " \t", "\t ", "      "}
 var lineEnds = []string{"\n", "\n", "\n", "\r\n", "\r"}
-var blockPieces = []string{"a", "text", "x y", `\"""`, `"`, `""`, `\`, `\\`, `\n`, `\u0041`, "\xc3\xa9", "\U0001F600", "\xe2\x80\xa8", "\xe2\x80\xa9", "\x01", "\x7f", "\x1f",
-	"<b>&", "#", "  ", "\t", " \" ", "\" ", " \"", `\"`, "'"}
+var blockPieces = []string{"a", "text", "x y", `\`, `\\`, `\n`, `\u0041`, "\xc3\xa9", "\U0001F600", "\xe2\x80\xa8", "\xe2\x80\xa9", "\x01", "\x7f", "\x1f",
+	"<b>&", "#", "  ", "\t", "'", "x`+"`"+`y", "q\"q", "a\"\"b"}
+var blockQuirks = []string{`\"""`, `"`, `""`, " \" ", "\" ", " \"", `\"`}
 
-func genBlockLine(r *common.Rand) string {
+func genBlockLine(r *common.Rand, quirky bool) string {
 	var sb strings.Builder
 	sb.WriteString(common.PickOf(r, indents))
 	n := r.Pick(4)
 	for i := 0; i < n; i++ {
-		sb.WriteString(common.PickOf(r, blockPieces))
+		if quirky && r.Chance(1, 3) {
+			sb.WriteString(common.PickOf(r, blockQuirks))
+		} else {
+			sb.WriteString(common.PickOf(r, blockPieces))
+		}
 	}
 	if r.Chance(1, 6) {
 		sb.WriteString(common.PickOf(r, []string{" ", "  ", "\t"}))
@@ -278,6 +291,7 @@ func goBlockLexable(raw string) bool {
 func genBlock(r *common.Rand) string {
 	for tries := 0; tries < 50; tries++ {
 		var sb strings.Builder
+		quirky := r.Chance(1, 5)
 		nl := 1 + r.Pick(5)
 		if r.Chance(1, 3) {
 			sb.WriteString(common.PickOf(r, lineEnds)) // usual style: content starts on the next line
@@ -286,10 +300,10 @@ func genBlock(r *common.Rand) string {
 			if i > 0 {
 				sb.WriteString(common.PickOf(r, lineEnds))
 			}
-			if r.Chance(1, 6) {
+			if r.Chance(1, 6) || (quirky && r.Chance(1, 2)) {
 				sb.WriteString(common.PickOf(r, indents)) // blank line
 			} else {
-				sb.WriteString(genBlockLine(r))
+				sb.WriteString(genBlockLine(r, quirky))
 			}
 		}
 		if r.Chance(1, 3) {
